@@ -771,3 +771,30 @@ def parse_trace(lines):
                     a["items"].append(it)
             out["actions"].append(a)
     return out
+
+
+# ----------------------------------------------------------------------------- replay of a recorded violation
+
+def replay(ctx, runner, kinds_of):
+    """`./check Cxx --replay <file>`: re-run the recorded (program, configuration, schedule) on the
+    current tree; the violation is reported again iff the same kind of failure still occurs.
+    kinds_of(obj, Summary) -> list of failure kinds."""
+    import json
+    obj = json.load(open(ctx.replay_path))
+    line = obj.get("replay_case") or obj.get("original_case")
+    s = runner.one(line)
+    kinds = kinds_of(obj, s)
+    print("replay: %s" % line)
+    print("observed: %s" % s.line[:1500])
+    print("failure kinds now: %s (recorded: %s)" % (kinds, obj.get("what")))
+    still = obj.get("what") in kinds
+    ctx.cov.update({"evaluations": 1, "distinct_nontrivial": int(s.ok and s.nontrivial()), "rule": "replay of one recorded case",
+                    "samples": [line], "traces_validated_against_impl": 0, "disagreements_checked": 1,
+                    "replayed_failure_still_present": still, "obligations": 0, "discharged": 0,
+                    "checker_cmd": "none (exploration; Coq model pending)"})
+    if still:
+        o = dict(obj)
+        o["replayed"] = True
+        o["observed"] = s.line[:3000]
+        ctx.violation(o, finding_key=obj.get("finding"))
+    return still
